@@ -65,7 +65,8 @@ def abstract_episode(ep: List[Dict[str, Any]]) -> Tuple[Optional[List[Dict[str, 
         return None, 'non_numeric_tol'
     zeros = [0] * n
     cfg = {'n': n, 'sel': sel, 'min': en['min'], 'max': en['max'], 'tol': 1, 'failures': 'raise' if en['failures'] == 'raise' else 'ignore',
-           'offset': en['offset'], 'L': en['L'], 't': en['t'], 'lv': False, 'lags': zeros, 'leads': zeros, 'spanOK': [True] * n,
+           'offset': en['offset'], 'L': en['L'], 't': en['t'], 'lv': False,
+           'lags': [int(en.get('lags', 0))] * n, 'leads': [int(en.get('leads', 0))] * n, 'spanOK': [True] * n,
            'v0': zeros, 'vsrc': zeros, 'l0': 0, 'lsrc': 0}
     sub0 = en['subs0']
     if any(sub0[k][0] is None for k in allsubs):
